@@ -30,40 +30,85 @@ def run(cx: Cx):
     ps = [p for p in cx.walker.paths(fn, WalkOptions(unroll=1, domain='real')) if p.end == 'return']
     cx.floor('get_agents_at returning paths', len(ps), 1)
     reads = set()
+    cases = []          # (agent term, membership condition, where)
+    loop_groups = {}    # for results built by a loop with conditional appends: loop line -> [(agent term, cond, appended)]
     for p in ps:
         v = p.last.data.get('value')
         for c in p.conds:
             reads |= term_symbols(c)
         reads |= term_symbols(v)
         where = cx.where(fn, p.last.line)
-        if not (isinstance(v, Fresh) and v.kind == 'listcomp' and v.detail is not None and len(v.detail.gens) == 1):
-            cx.inconclusive('R-FRESH', 'get_agents_at result', f"returns {v!r}: not a single-generator list comprehension",
-                            where=where, function=fn.qualname)
+        if isinstance(v, Fresh) and v.kind == 'listcomp' and v.detail is not None and len(v.detail.gens) == 1:
+            tgt, src, conds = v.detail.gens[0]
+            oc = order_class(src, agents)
+            if oc == 'reordered':
+                cx.violation('R-ITER', fn.qualname, 'joining-order', f"get_agents_at iterates {src!r}: not joining order", where=where)
+                continue
+            if oc != 'inorder':
+                cx.violation('R-ITER', fn.qualname, 'filters-the-resident-agents', f"get_agents_at iterates {src!r}, not the "
+                             f"environment's agents", where=where)
+                continue
+            if strip_versions(src) == agents:
+                ag = Sub(agents, tgt)
+            elif isinstance(src, App) and src.fn == '.values':
+                ag = tgt
+            else:
+                ag = v.detail.elt
+            if v.detail.elt != ag:
+                cx.violation('R-FRESH', fn.qualname, 'yields-the-agent', f"get_agents_at yields {v.detail.elt!r}, not the agent {ag!r}",
+                             where=where)
+                continue
+            if (repr(ag), repr(f_and(*conds))) not in [(repr(a), repr(b)) for a, b, _ in cases]:
+                cases.append((ag, f_and(*conds), where))
             continue
-        tgt, src, conds = v.detail.gens[0]
-        oc = order_class(src, agents)
-        if oc == 'reordered':
-            cx.violation('R-ITER', fn.qualname, 'joining-order', f"get_agents_at iterates {src!r}: not joining order", where=where)
+        if isinstance(v, Fresh) and v.kind in ('list', 'call:list') and not v.items:
+            loops = [e for e in p.events if e.kind == 'loop' and order_class(e.data.get('iter'), agents) != 'unrelated']
+            if len(loops) != 1 or order_class(loops[0].data.get('iter'), agents) != 'inorder':
+                cx.violation('R-ITER', fn.qualname, 'filters-the-resident-agents', f"get_agents_at does not make one in-order pass over "
+                             f"the environment's agents ({[repr(l.data.get('iter')) for l in loops]})", where=where)
+                continue
+            lp = loops[0]
+            for e in p.events:
+                if e.kind == 'call' or e.kind == 'assign':
+                    reads |= term_symbols(e.data.get('value')) if e.data.get('value') is not None else set()
+            iters = [e for e in p.events if e.kind == 'iter' and e.node is lp.node]
+            ends = [e for e in p.events if e.kind == 'endloop' and e.node is lp.node]
+            if any(e.data.get('how') != 'exhausted' for e in ends):
+                cx.violation('R-ITER', fn.qualname, 'every-agent-considered', "get_agents_at leaves the loop over the agents early", where=where)
+                continue
+            if not iters:
+                continue
+            it_ev = iters[0]
+            nxt = p.events.index(iters[1]) if len(iters) > 1 else p.events.index(ends[-1])
+            seg = p.events[p.events.index(it_ev):nxt]
+            info = it_ev.data['info']
+            key = info.get('var') if info.get('kind') == 'iter' else info.get('index')
+            itn = strip_versions(lp.data.get('iter'))
+            if info.get('kind') == 'items':
+                ag = Sub(info['seq'], info['index'])
+            elif isinstance(itn, App) and itn.fn == '.values':
+                ag = info.get('var')
+            else:
+                ag = Sub(agents, key)
+            F = f_and(*[e.data['formula'] for e in seg if e.kind == 'cond'])
+            reads |= term_symbols(F)
+            apps = [e for e in seg if e.kind == 'store' and strip_versions(e.data.get('target')) == v]
+            if len(apps) > 1 or (apps and (apps[0].data.get('store') != 'append' or apps[0].data.get('args') != (ag,))):
+                cx.violation('R-FRESH', fn.qualname, 'yields-the-agent', f"get_agents_at stores {[repr(a.data.get('args')) for a in apps]} for the "
+                             f"agent {ag!r}: each matching agent must be appended once", where=cx.where(fn, apps[0].line))
+                continue
+            loop_groups.setdefault(lp.node.lineno, []).append((ag, F, bool(apps), cx.where(fn, lp.line)))
             continue
-        if oc != 'inorder':
-            cx.violation('R-ITER', fn.qualname, 'filters-the-resident-agents', f"get_agents_at iterates {src!r}, not the "
-                         f"environment's agents", where=where)
-            continue
-        # the element and the agent term
-        if strip_versions(src) == agents:
-            ag = Sub(agents, tgt)
-        elif isinstance(src, App) and src.fn == '.values':
-            ag = tgt
-        else:
-            ag = Sub(agents, tgt) if v.detail.elt == Sub(agents, tgt) else v.detail.elt
-        if v.detail.elt != ag:
-            cx.violation('R-FRESH', fn.qualname, 'yields-the-agent', f"get_agents_at yields {v.detail.elt!r}, not the agent {ag!r}",
-                         where=where)
-            continue
+        cx.inconclusive('R-FRESH', 'get_agents_at result', f"returns {v!r}: neither a list comprehension over the agents nor a list "
+                        f"filled in a loop over them", where=where, function=fn.qualname)
+    for line, rows in loop_groups.items():
+        from sa.terms import f_or as _f_or
+        ag = rows[0][0]
+        A = _f_or(*[F for a, F, app, w in rows if app])
+        cases.append((ag, A, rows[0][3]))
+    for ag, F, where in cases:
         cx.ok('R-ITER', 'fresh list, one pass over Environment.agents in joining order, yields the agent', where=where,
               function=fn.qualname)
-        F = f_and(*conds)
-        # which term denotes the agent's position component?
         pcs = Sym(PC)
         cands = [Sub(ag, pcs), Sub(Attr(ag, 'components'), pcs), App('call:' + CORE + 'Agent.get_component', (ag, pcs))]
         used = [c for c in cands if any(isinstance(s, Attr) and s.base == c for s in term_symbols(F))]
@@ -88,6 +133,10 @@ def run(cx: Cx):
             cx.violation('R-GUARD', fn.qualname, 'closed-leeway-box',
                          f"get_agents_at filters with [{F!r}] but the closed leeway box is [{E!r}]; they differ at {show} "
                          f"(code keeps the agent: {cex['_left']})", where=where, found=repr(F), expected=repr(E), counterexample=cex)
+    if not cases and not any(o.verdict != 'ok' for o in cx.obs):
+        cx.inconclusive('R-GUARD', 'get_agents_at filter', 'no filter could be extracted', where=cx.where(fn), function=fn.qualname)
+    from .common import check_result_fresh
+    check_result_fresh(cx, fn.qualname)
     check_pure(cx, fn.qualname)
     # seam clause
     names = {s.name for s in reads if isinstance(s, Attr) and s.base == self_s}
